@@ -33,7 +33,7 @@ ViewOK(ev) ==
 
 TInit == /\ l = 1 /\ IsEvent("load") /\ SemInit(Tr[1].a) /\ every = Tr[1].every /\ lim = Tr[1].lim
 TFirst == /\ l = 1 /\ l' = 2 /\ UNCHANGED <<svars, every, lim>>
-TLoad == /\ l > 1 /\ IsEvent("load") /\ (l > 2 => Tr[l - 1].e \in {"final", "timeout"})
+TLoad == /\ l > 1 /\ IsEvent("load") /\ (l > 2 => Tr[l - 1].e \in {"final", "final2", "cli", "timeout"})
          /\ a' = Ev.a /\ code' = MkCode(Ev.a) /\ labs' = MkLabs(Ev.a) /\ frames' = <<Frame0(0, EmptyEnv, "")>> /\ halted' = FALSE /\ over' = FALSE /\ n' = 0
          /\ every' = Ev.every /\ lim' = Ev.lim /\ l' = l + 1
 \* unlogged step: anything that is not a line event (every mode), any step (final-only mode)
@@ -49,14 +49,21 @@ TStop == /\ l > 1 /\ every /\ ~Done /\ Cur.op = "line" /\ IsEvent("stop")
 TFinal == /\ l > 1 /\ Done /\ ~over /\ IsEvent("final") /\ ViewOK(Ev)
           /\ Ev.maxdepth <= NR(a) + 1
           /\ l' = l + 1 /\ UNCHANGED <<svars, every, lim>>
+\* the uninterrupted run (execute() on a fresh VM, no stepping mode) ends in the same state
+TFinal2 == /\ l > 1 /\ Done /\ ~over /\ IsEvent("final2") /\ Ev.done /\ ViewOK(Ev)
+           /\ l' = l + 1 /\ UNCHANGED <<svars, every, lim>>
+\* the command line tool (bin/theo) prints the variables of the last activation after execute()
+TCli == /\ l > 1 /\ Done /\ ~over /\ IsEvent("cli")
+        /\ \A x \in UVars(Top.r) : \E i \in DOMAIN Ev.vars : Ev.vars[i][1] = x /\ Ev.vars[i][2] = Get(Top.env, x)
+        /\ l' = l + 1 /\ UNCHANGED <<svars, every, lim>>
 \* C01, second sentence: the VM exhausted its proportional budget and the reference run is not over either
 TTimeout == /\ l > 1 /\ ~Done /\ IsEvent("timeout") /\ n >= Ev.minsteps
             /\ l' = l + 1 /\ UNCHANGED <<svars, every, lim>>
 \* a value left the word range: this execution is outside C01's domain, its remaining events are skipped
-TSkip == /\ l > 1 /\ over /\ l <= Len(Tr) /\ Ev.e \in {"stop", "final", "timeout"}
+TSkip == /\ l > 1 /\ over /\ l <= Len(Tr) /\ Ev.e \in {"stop", "final", "final2", "cli", "timeout"}
          /\ l' = l + 1 /\ UNCHANGED <<svars, every, lim>>
 
-TNext == TFirst \/ TLoad \/ TSilent \/ TStop \/ TFinal \/ TTimeout \/ TSkip
+TNext == TFirst \/ TLoad \/ TSilent \/ TStop \/ TFinal \/ TFinal2 \/ TCli \/ TTimeout \/ TSkip
 TSpec == TInit /\ [][TNext]_tvars
 
 NotAccepted == l <= Len(Tr)
